@@ -1183,7 +1183,8 @@ class ASTBuilder:
             mod: Optional[ast.Module] = None
             try:
                 mod = parseFile(path)
-            except (SyntaxError, ValueError) as e:
+            except (SyntaxError, ValueError, RecursionError) as e:
+                # RecursionError: an expression too deeply nested for the parser.
                 ctx.report(f"cannot parse file, {e}")
 
             self.ast_cache[path] = mod
@@ -1193,7 +1194,7 @@ class ASTBuilder:
         mod = None
         try:
             mod = _parse(py_string)
-        except (SyntaxError, ValueError):
+        except (SyntaxError, ValueError, RecursionError):
             ctx.report("cannot parse string")
         return mod
 
